@@ -115,6 +115,11 @@ func (g *FuncGen) evBuiltin(c *ast.CallExpr, name string, st *State) []Val {
 			}
 			src := g.exprText(c)
 			g.oblige(st, "bounds", src, nil, fmt.Sprintf("(<= 0 %s)", n.T), c.Pos(), src)
+			// an allocation is bounded: no more than any byte string can hold (A-MEM, 2^47); a length taken from
+			// untrusted input without a check against what is actually there fails this
+			if _, isConst := g.info.Types[c.Args[len(c.Args)-1]]; len(c.Args) > 1 && !(isConst && g.info.Types[c.Args[1]].Value != nil) {
+				g.oblige(st, "alloc", src, nil, fmt.Sprintf("(<= %s 140737488355328)", n.T), c.Pos(), src)
+			}
 			if s == "Bytes" {
 				if n.T == "0" {
 					return []Val{{"bempty", ty, s}}
